@@ -14,7 +14,7 @@
 (***************************************************************************)
 EXTENDS Integers, Sequences, FiniteSets, TLC, Json
 
-CONSTANTS Kinds, Addrs, Lens, MaxSecs, Vcpus
+CONSTANTS Kinds, Addrs, Lens, MaxSecs, Vcpus, Roms, Bases
 
 VARIABLES fw
 vars == <<fw>>
@@ -23,7 +23,10 @@ vars == <<fw>>
 Unal(x) == x >= 90
 Sec == [kind : Kinds, addr : Addrs, len : Lens]
 SecLists == UNION {[1 .. n -> Sec] : n \in 0 .. MaxSecs}
-Fws == [rom : {1}, secs : SecLists, vcpus : Vcpus, product : {"Milan", "Genoa"}]
+\* rom: ROM size in pages; base: where page unit 0 of the section addresses lies ("high": just below
+\* the ROM's own range, as in the repository's fixtures; "zero": guest-physical address 0, so that a
+\* section at address unit 0 sits at GPA 0 -- a legal address like any other)
+Fws == [rom : Roms, secs : SecLists, vcpus : Vcpus, product : {"Milan", "Genoa"}, base : Bases]
 
 PageTypeOf(k) == CASE k = 1 -> "UNMEASURED" [] k = 2 -> "SECRETS" [] k = 3 -> "CPUID" [] k = 4 -> "ZERO" [] OTHER -> "?"
 
